@@ -4,19 +4,23 @@ import cxx_specs as XS
 
 PROPERTY = "C15"
 LEVEL = "proof"
-EXPLANATION = ("Proof over all failure points: with the k-th allocation request inside randomx_alloc_cache / randomx_alloc_dataset failing (for every k and every flag combination, by exception or by NULL), the call returns NULL with nothing live and no exception escaping, success leaves exactly the expected objects live, and release returns all of them; deallocCache releases each resource a (possibly partially constructed) cache holds exactly once. create_vm's failure paths and the allocators' own bookkeeping are not decided.")
+EXPLANATION = ("Proof over all failure points: with the k-th allocation request inside randomx_alloc_cache / randomx_alloc_dataset / randomx_create_vm failing (for every k and every flag combination, by exception or by NULL), the call returns NULL with nothing live and no exception escaping, success leaves exactly the expected objects live, and release returns all of them; deallocCache releases each resource a (possibly partially constructed) cache holds exactly once. The VM destructors and the allocators' own bookkeeping are not decided.")
 TRUSTED = ['exception-flow model of the extraction: a may-throw stub sets rxv_exc and control leaves the try block after the statement containing the call (exact here because every assigned object is still null at that point)', 'allocation stubs with a ghost ledger stand for operator new, the JIT compiler constructor and the aligned / large-page allocators', 'deallocCache / deallocDataset stubs in the alloc harness carry the contract enforced on the real deallocCache (deallocDataset: by inspection, one line)']
 ASSUMPTIONS = []
-NOT_DECIDED = ['randomx_create_vm failure paths and ~VmBase / ~CompiledVm', "allocator internals (allocMemoryPages, allocLargePagesMemory, freePagedMemory) and JitCompilerX86's constructor / destructor", 'process-level growth (heap blocks, mapped bytes) over repeated cycles']
+NOT_DECIDED = ['VM destructors (~VmBase frees the scratchpad, ~CompiledVm the JIT buffer): bodies not under contract', "allocator internals (allocMemoryPages, allocLargePagesMemory, freePagedMemory) and JitCompilerX86's constructor / destructor", 'process-level growth (heap blocks, mapped bytes) over repeated cycles']
 INC = ["@suites/common"]
 ALLOC = [{"cxx": XS.RX_ALLOC, "out": "rx.c", "header": True}, "harness_alloc.c"]
 
+ALLOC_REPLAY = {"prog": "@suites/C15/replay_alloc_failure.cpp", "no_args": True, "sources": XS.LIB_SOURCES,
+                "flags": ["-O1", "-march=native", "-Wl,--wrap=posix_memalign", "-Wl,--wrap=free", "-Wl,--wrap=mmap", "-Wl,--wrap=munmap"]}
 OBLIGATIONS = [
     {"name": "dealloc_cache_releases_everything_held", "files": [{"cxx": XS.DEALLOC_CACHE, "out": "ds.c", "header": True}, "harness_dealloc.c"], "incdirs": INC,
      "defines": ['RXV_CONTRACTS_H="contracts_dealloc.h"'], "entry": "h_dealloc_cache", "enforce": "deallocCache",
-     "replace": ["rxv_Allocator_freeMemory", "rxv_delete"], "expect_classes": ["postcondition"], "expect_min": 2},
+     "replace": ["rxv_Allocator_freeMemory", "rxv_delete"], "expect_classes": ["postcondition"], "expect_min": 2, "replay": ALLOC_REPLAY},
     {"name": "alloc_cache_fails_cleanly_and_release_returns_everything", "files": ALLOC, "incdirs": INC, "defines": ['RXV_CONTRACTS_H="decls_alloc.h"'], "entry": "h_alloc_cache",
-     "expect_classes": ["assertion"], "expect_min": 8},
+     "expect_classes": ["assertion"], "expect_min": 8, "replay": ALLOC_REPLAY},
     {"name": "alloc_dataset_fails_cleanly_and_release_returns_everything", "files": ALLOC, "incdirs": INC, "defines": ['RXV_CONTRACTS_H="decls_alloc.h"'], "entry": "h_alloc_dataset",
      "expect_classes": ["assertion"], "expect_min": 5},
+    {"name": "create_vm_fails_cleanly", "files": [{"cxx": XS.RX_CREATE_VM_EXC, "out": "rx.c", "header": True}, "harness_create_vm_fail.c"],
+     "incdirs": INC, "defines": ['RXV_CONTRACTS_H="decls_create_vm.h"'], "entry": "h_create_vm_fail", "expect_classes": ["assertion"], "expect_min": 5, "replay": ALLOC_REPLAY},
 ]
